@@ -36,7 +36,7 @@ STATUS = {
  "C02": ("full (the rule, and its hypotheses for every reachable state)", "`C02_superficial_iff`, `C02_ratio`, `C02_automatic`, `C02_specified`, `C02_rule`, `C02_every_reachable_sale`, `C02_pipeline_histories_sorted`, `C02_comparisons_match_source`, window/tolerance constants"),
  "C03": ("full, ledger and pipeline (the property itself carries the \"not flagged over-applied\" condition)", "`C03_conservation`, `C03_pipeline`, `C03_adjustments_sum`, `C03_never_registered`"),
  "C04": ("full (ledger, pipeline, totals); output modes by oracle", "`C04_nonneg`, `C04_total`, `C04_registered`, `C04_only_user_errors`, `C04_row_rejected_iff`, `C04_sfl_error_iff`, `C04_pipeline`, `C04_rejected_not_in_totals`"),
- "C05": ("core full (ledger and pipeline); front ends sampled", "`C05_core_no_panic`, `C04_pipeline`"),
+ "C05": ("core full (ledger, pipeline and cost report); front ends sampled", "`C05_core_no_panic`, `C04_pipeline`, `C05_pipeline_no_panic`"),
  "C06": ("full (render model)", "`C06_year_total`, `C06_table_total`, `C06_aggregate_year`, `C06_since_inception`, `C06_round_spec`, `C06_display_only`"),
  "C07": ("full", "`C07_row_perm`, `C07_column_perm`, `C07_file_partition`, `C07_header_case_pad`, `C07_unknown_columns`, `C07_sort_unique`, …"),
  "C08": ("full (pipeline + gains model)", "`C08_table_local`, `C08_other_rows_irrelevant`, `C08_error_local`, `C08_aggregate_additive`"),
